@@ -21,7 +21,7 @@ def length_of(v):
         return len(v)
     if type(v).__name__ in ("JSText", "AvroHeader", "AvroBlock", "CsvRow", "MagicSeg"):
         return v.length
-    if isinstance(v, BCat):
+    if isinstance(v, BCat) or type(v).__name__ == "JSLines":
         total = 0
         for part in v.parts:
             total = total + length_of(part)
@@ -118,7 +118,7 @@ class AbsFile(io.IOBase):
                     no_sur = z3.Star(z3.Union(z3.Range(chr(0), chr(0xD7FF)), z3.Range(chr(0xE000), chr(0x2FFFF))))
                     it.require(z3.InRe(leaf.t, no_sur), UnicodeEncodeError("utf-8", "<symbolic>", 0, 1, "surrogates not allowed"))
         n = length_of(b)
-        if isinstance(b, BCat):
+        if isinstance(b, BCat) or type(b).__name__ == "JSLines":
             for part in b.parts:  # one write call, the parts lie one after the other in the file
                 self.segs.append((part, length_of(part)))
         else:
